@@ -44,6 +44,10 @@ type spec struct {
 	pre     []string // present before the threads start, never removed
 	writers [][]wop
 	readers [][]string
+	// callTicks: every writer operation gets an instant of its own for its call (otherwise the call
+	// is stamped with the instant the previous operation returned, which is sound but leaves the
+	// "present throughout" window of a range its owner removes later empty)
+	callTicks bool
 }
 
 type harness struct {
@@ -159,6 +163,11 @@ func body(sp *spec) func(c *vsched.Ctx) {
 				defer wg.Done()
 				t := h.tick(fmt.Sprintf("w%d-0", wi))
 				for oi, op := range ops {
+					if oi > 0 && sp.callTicks {
+						// an instant of its own for the call: between the previous return and this one the
+						// writer's ranges are definitely what the previous operations made them
+						t = h.tick(fmt.Sprintf("w%d-%dc", wi, oi))
+					}
 					h.wspans[wi][oi].callT = t
 					var err error
 					if op.add {
@@ -312,6 +321,8 @@ func main() {
 	// 0.0.0.0/0 present (from before, or added by a second writer and kept) while a writer crosses the list->maps switch
 	sB2 := &spec{pre: []string{"192.168.0.0/24", "0.0.0.0/0"}, writers: [][]wop{w1short}, readers: [][]string{{never, always}}}
 	sB3 := &spec{pre: pre, writers: [][]wop{w1short, {A("0.0.0.0/0")}}, readers: [][]string{{never}}}
+	sA2 := &spec{pre: pre, writers: [][]wop{w1}, readers: [][]string{{churn, churn}}, callTicks: true}
+	sB4 := &spec{pre: pre, writers: [][]wop{w1short, w2all}, readers: [][]string{{never}}, callTicks: true}
 	P := func(b ...int) sdrive.Plan { return sdrive.Plan{Bounds: b} }
 	PS := func(n int, b ...int) sdrive.Plan { return sdrive.Plan{Bounds: b, Shards: n} }
 	scens := []sdrive.Scenario{
@@ -325,6 +336,10 @@ func main() {
 			Quick: P(0, 1, -1), Body: body(sB2), MinOutcomes: 1},
 		{Name: "B3-matchall-added-and-kept", Props: []string{"C12"}, About: "a second writer adds 0.0.0.0/0 and keeps it while the first crosses the switch; afterwards everything is contained",
 			Quick: PS(8, 0, 1, 2), Thorough: PS(16, 0, 1, 2, 3, -1), Body: body(sB3), MinOutcomes: 2},
+		{Name: "A2-churned-range-present-throughout", Props: []string{"C12"}, About: "as A with an instant of its own for every writer call: a lookup that falls between the return of Add(r) and the call of Remove(r) must be true",
+			Quick: P(0, 1, -1), Body: body(sA2), MinOutcomes: 2},
+		{Name: "B4-matchall-window", Props: []string{"C12"}, About: "as B with call instants: while 0.0.0.0/0 is present (between the return of its Add and the call of its Remove) every lookup is true, also across the switch",
+			Quick: PS(8, 0, 1, 2), Thorough: PS(16, 0, 1, 2, 3, -1), Body: body(sB4), MinOutcomes: 2},
 		{Name: "C-two-writers+reader", Props: []string{"C12"}, About: "two writers owning different ranges, reader on the churned address",
 			Quick: PS(8, 0, 1, 2, 3), Thorough: PS(16, 0, 1, 2, -1), Body: body(sC), MinOutcomes: 2},
 		{Name: "D-removed-slot+two-readers", Props: []string{"C12"}, About: "a slot removed before the switch, two readers",
